@@ -359,6 +359,50 @@ Section RegThms.
     intros o Ho. pose proof (verify_ops_inv _ _ Hv o Ho) as Hok.
     apply op_ok_iff in Hok as [[E _] _]. exact E.
   Qed.
+  (* ---------------------------------------------------------------- many replicas *)
+  Definition merge_all (r0 : sreg) (l : list sreg) : sreg := fold_left (fun acc r => snd (merge acc r)) l r0.
+
+  Lemma merge_all_spec l : forall r0, wf r0 -> (forall r, In r l -> same_base r0 r) ->
+    base (merge_all r0 l) = base r0 /\ wf (merge_all r0 l) /\
+    forall x, In x (ops (merge_all r0 l)) <-> In x (ops r0) \/ exists r, In r l /\ In x (ops r).
+  Proof.
+    induction l as [|r l IH]; intros r0 W Hb; cbn.
+    - split; [reflexivity|]. split; [exact W|]. intros x. split; [auto | intros [Hx|(r & [] & _)]; exact Hx].
+    - rewrite (merge_same r0 r (Hb r (or_introl eq_refl))). cbn [snd].
+      destruct (IH (with_ops r0 (ounion (ops r0) (ops r)))) as (E & W' & Hin).
+      + apply ounion_sorted, W.
+      + intros r' Hr'. unfold same_base. cbn. apply Hb. right. exact Hr'.
+      + split; [exact E|]. split; [exact W'|]. intros x. rewrite Hin. cbn. rewrite ounion_In by exact W. split.
+        * intros [[Hx|Hx]|(r' & Hr' & Hx)]; eauto.
+        * intros [Hx|(r' & [<-|Hr'] & Hx)]; eauto.
+  Qed.
+
+  Lemma merge_all_order_lemma r0 l1 l2 : wf r0 -> (forall r, In r l1 -> same_base r0 r) ->
+    (forall r, In r l1 <-> In r l2) -> ops (merge_all r0 l1) = ops (merge_all r0 l2).
+  Proof.
+    intros W Hb Hsame.
+    assert (Hb2 : forall r, In r l2 -> same_base r0 r) by (intros r Hr; apply Hb, Hsame, Hr).
+    destruct (merge_all_spec l1 r0 W Hb) as (_ & W1 & H1). destruct (merge_all_spec l2 r0 W Hb2) as (_ & W2 & H2).
+    apply osorted_ext; [exact W1 | exact W2 |]. intros x. rewrite H1, H2. split.
+    - intros [Hx|(r & Hr & Hx)]; [auto|]. right. exists r. split; [apply Hsame, Hr | exact Hx].
+    - intros [Hx|(r & Hr & Hx)]; [auto|]. right. exists r. split; [apply Hsame, Hr | exact Hx].
+  Qed.
+
+  (* replicas holding the same verified operations present the same values, whatever order their
+     BTreeSets iterate in *)
+  Lemma same_values_lemma r1 r2 order1 order2 :
+    verify_in r1 order1 = Ok -> verify_in r2 order2 = Ok -> base r1 = base r2 ->
+    (forall o, In o order1 <-> In o order2) -> inj_on H (map onode order1) ->
+    client_build H r1 order1 = client_build H r2 order2 /\
+    exists c, client_build H r1 order1 = (Ok, c).
+  Proof.
+    intros V1 V2 Eb Hsame Hinj. rewrite (verified_applies_lemma r1 order1 V1), (verified_applies_lemma r2 order2 V2).
+    split; [|eauto]. rewrite Eb. f_equal. f_equal. apply order_independent; [exact Hinj|].
+    intros n. rewrite !in_map_iff. split; intros (o & E & Ho); exists o; (split; [exact E | apply Hsame, Ho]).
+  Qed.
+
+  Lemma reachable_wf_lemma r : reachable r -> wf r.
+  Proof. intros Hr. apply reachable_sound in Hr. apply Hr. Qed.
 End RegThms.
 
 (* ------------------------------------------------------------------ witnesses at the entry limit *)
